@@ -116,6 +116,11 @@ func (a *anchorSet) has(f *Fn) bool {
 		return true
 	}
 	if f.Decl != nil && a.idents[f.Decl.Name.Name] {
+		if ast.IsExported(f.Decl.Name.Name) && f.Body != nil && fieldGetter(f) {
+			// the exported accessor of a field of an unexported type: no rule asks for it by its full name (that is
+			// a.names), it only shares an identifier with something the patterns mention
+			return false
+		}
 		if len(a.pinned) > 0 {
 			// the table of the confirmed tree decides: a function that is not in it only shares the name of a variable,
 			// a field or a function of another package that the rules mention
@@ -406,6 +411,22 @@ type inliner struct {
 	ctr          int
 	files        map[string]*fileEdits
 	elig         map[*Fn]bool
+	refs         map[*types.Func]int // references to each function of the module outside test files (lazily computed)
+}
+
+// references counts the identifiers that denote f outside test files.
+func (in *inliner) references(f *types.Func) int {
+	if in.refs == nil {
+		in.refs = map[*types.Func]int{}
+		for _, pkg := range in.p.Pkgs {
+			for id, o := range pkg.TypesInfo.Uses {
+				if fo, ok := o.(*types.Func); ok && !strings.HasSuffix(in.p.Fset.Position(id.Pos()).Filename, "_test.go") {
+					in.refs[fo.Origin()]++
+				}
+			}
+		}
+	}
+	return in.refs[f.Origin()]
 }
 
 func (in *inliner) file(pos token.Pos) *fileEdits {
@@ -453,6 +474,9 @@ func (in *inliner) eligible(f *Fn) bool {
 		return v
 	}
 	ok := in.eligible1(f)
+	if os.Getenv("MLB_DEBUG_EXPAND") != "" && f.Decl != nil && strings.HasSuffix(os.Getenv("MLB_DEBUG_EXPAND"), "."+f.Decl.Name.Name) {
+		fmt.Fprintf(os.Stderr, "eligible %s = %v (getter=%v anchor=%v)\n", f.Name(), ok, fieldGetter(f), Anchors.has(f))
+	}
 	in.elig[f] = ok
 	return ok
 }
@@ -484,7 +508,10 @@ func (in *inliner) eligible1(f *Fn) bool {
 		return false
 	}
 	name := f.Decl.Name.Name
-	if ast.IsExported(name) || name == "init" || name == "main" || name == "_" {
+	if name == "init" || name == "main" || name == "_" {
+		return false
+	}
+	if ast.IsExported(name) && !fieldGetter(f) {
 		return false
 	}
 	if Anchors.has(f) {
@@ -531,7 +558,12 @@ func (in *inliner) eligible1(f *Fn) bool {
 		}
 		return !bad
 	})
-	if bad || nstmt > 60 {
+	if bad {
+		return false
+	}
+	if nstmt > 60 && !(nstmt <= 400 && in.references(f.Obj) == 1) {
+		// a long function is expanded only where it is used once (a phase of its only caller moved out: nothing is
+		// duplicated)
 		return false
 	}
 	// build-constrained files are left alone
@@ -545,6 +577,35 @@ func (in *inliner) eligible1(f *Fn) bool {
 		}
 	}
 	return true
+}
+
+// fieldGetter: `func (r *T) Name() F { return r.f }` on an unexported type T: the accessor of a field. A static call of
+// it is the field read, exported name or not.
+func fieldGetter(f *Fn) bool {
+	if f.Decl.Recv == nil || len(f.Decl.Recv.List) != 1 || len(f.Decl.Recv.List[0].Names) != 1 || f.Decl.Type.Params.NumFields() != 0 || len(f.Body.List) != 1 {
+		return false
+	}
+	rt := f.Decl.Recv.List[0].Type
+	if st, ok := rt.(*ast.StarExpr); ok {
+		rt = st.X
+	}
+	if id, ok := rt.(*ast.Ident); !ok || ast.IsExported(id.Name) {
+		return false
+	}
+	ret, ok := f.Body.List[0].(*ast.ReturnStmt)
+	if !ok || len(ret.Results) != 1 {
+		return false
+	}
+	sel, ok := ast.Unparen(ret.Results[0]).(*ast.SelectorExpr)
+	if !ok {
+		return false
+	}
+	x, ok := ast.Unparen(sel.X).(*ast.Ident)
+	if !ok || f.Info().Uses[x] != f.Info().Defs[f.Decl.Recv.List[0].Names[0]] {
+		return false
+	}
+	s := f.Info().Selections[sel]
+	return s != nil && s.Kind() == types.FieldVal
 }
 
 func (in *inliner) fileOfNode(n ast.Node) *ast.File {
@@ -1199,6 +1260,34 @@ func callFree(e ast.Node) bool {
 	return ok
 }
 
+// constantValue: the expression denotes the same value whenever it is evaluated and evaluating it does nothing: a
+// constant, nil, or a composite literal of a struct type whose elements are such values.
+func constantValue(info *types.Info, e ast.Expr) bool {
+	e = ast.Unparen(e)
+	if tv, ok := info.Types[e]; ok && (tv.Value != nil || tv.IsNil()) {
+		return true
+	}
+	cl, ok := e.(*ast.CompositeLit)
+	if !ok {
+		return false
+	}
+	if tv, has := info.Types[cl]; !has || tv.Type == nil {
+		return false
+	} else if _, isStruct := tv.Type.Underlying().(*types.Struct); !isStruct {
+		return false
+	}
+	for _, el := range cl.Elts {
+		v := el
+		if kv, isKV := el.(*ast.KeyValueExpr); isKV {
+			v = kv.Value
+		}
+		if !constantValue(info, v) {
+			return false
+		}
+	}
+	return true
+}
+
 // expand builds the edits for one call site; a, b is the source range replaced.
 func (in *inliner) expand(s callSite) (eds []textEdit, a, b token.Pos, ok bool) {
 	p := in.p
@@ -1220,6 +1309,9 @@ func (in *inliner) expand(s callSite) (eds []textEdit, a, b token.Pos, ok bool) 
 	}
 	b0 := &bodyBuilder{in: in, s: s, info: info}
 	if !b0.prepare() || !b0.typesOK() {
+		if os.Getenv("MLB_DEBUG_EXPAND") == s.callee.Name() {
+			fmt.Fprintf(os.Stderr, "expand %s at %s: prepare/typesOK failed\n", s.callee.Name(), p.Fset.Position(call.Pos()))
+		}
 		return nil, 0, 0, false
 	}
 	// 1. single-expression helper with substitutable parameters: replace the call by the expression
@@ -1494,6 +1586,23 @@ func (in *inliner) expand(s callSite) (eds []textEdit, a, b token.Pos, ok bool) 
 		txt := hoist + labelled(label) + replaceCall(st.Pos(), st.End(), tmps())
 		return []textEdit{{start: in.off(st.Pos()), end: in.off(st.End()), text: txt}}, st.Pos(), st.End(), true
 	case *ast.ReturnStmt:
+		if inList && len(st.Results) > 1 && nres == 1 {
+			// `return K, h(x)` with K constant values (ctrl.Result{}, nil, true): the helper runs, then the return
+			idx := -1
+			for i, r := range st.Results {
+				if ast.Unparen(r) == ast.Expr(call) {
+					idx = i
+				} else if !constantValue(info, r) {
+					return nil, 0, 0, false
+				}
+			}
+			if idx < 0 {
+				return nil, 0, 0, false
+			}
+			hoist, label := b0.build(modeTemps, tmp)
+			txt := hoist + labelled(label) + replaceCall(st.Pos(), st.End(), tmp(0))
+			return []textEdit{{start: in.off(st.Pos()), end: in.off(st.End()), text: txt}}, st.Pos(), st.End(), true
+		}
 		if !inList || len(st.Results) != 1 || nres == 0 {
 			return nil, 0, 0, false
 		}
@@ -2033,6 +2142,12 @@ func (b *bodyBuilder) substitutable(i int, pv *types.Var) bool {
 			if x.Op != token.AND {
 				simple = false
 			}
+		case *ast.CallExpr:
+			// a pure library method of a variable (ip.String()): it yields the same value at every use when the helper
+			// body cannot change the variable's contents
+			if !b.pureCallArg(x) {
+				simple = false
+			}
 		default:
 			simple = false
 		}
@@ -2092,6 +2207,83 @@ func (b *bodyBuilder) substitutable(i int, pv *types.Var) bool {
 		}
 	}
 	return true
+}
+
+// pureCallArg: `v.M()` with v a local variable or parameter of the caller, M one of the listed side-effect-free library
+// methods, and a helper body that stores through no slice element or pointer, copies into nothing, starts nothing and
+// calls nothing of this module: the call can be evaluated at each use of the parameter instead of once before.
+func (b *bodyBuilder) pureCallArg(c *ast.CallExpr) bool {
+	fo, _ := typeutil.Callee(b.info, c).(*types.Func)
+	if fo == nil || !fusePure[fo.FullName()] || len(c.Args) != 0 {
+		return false
+	}
+	sel, ok := ast.Unparen(c.Fun).(*ast.SelectorExpr)
+	if !ok {
+		return false
+	}
+	id, ok := ast.Unparen(sel.X).(*ast.Ident)
+	if !ok {
+		return false
+	}
+	if v, isVar := b.info.Uses[id].(*types.Var); !isVar || v.IsField() || v.Parent() == nil || v.Parent() == v.Pkg().Scope() {
+		return false
+	}
+	mod := b.s.callee.Pkg.Types.Path()
+	if i := strings.Index(mod, "/internal/"); i >= 0 {
+		mod = mod[:i]
+	}
+	cinfo := b.s.callee.Pkg.TypesInfo
+	okBody := true
+	storeOK := func(l ast.Expr) bool {
+		switch x := ast.Unparen(l).(type) {
+		case *ast.Ident:
+			return true
+		case *ast.IndexExpr:
+			if tv, has := cinfo.Types[x.X]; has && tv.Type != nil {
+				_, isMap := tv.Type.Underlying().(*types.Map)
+				return isMap
+			}
+		}
+		return false
+	}
+	ast.Inspect(b.s.callee.Body, func(n ast.Node) bool {
+		switch x := n.(type) {
+		case *ast.AssignStmt:
+			for _, l := range x.Lhs {
+				if !storeOK(l) {
+					okBody = false
+				}
+			}
+		case *ast.IncDecStmt:
+			if !storeOK(x.X) {
+				okBody = false
+			}
+		case *ast.RangeStmt:
+			if x.Tok == token.ASSIGN {
+				okBody = false
+			}
+		case *ast.FuncLit, *ast.GoStmt, *ast.DeferStmt:
+			okBody = false
+		case *ast.CallExpr:
+			if tv, has := cinfo.Types[x.Fun]; has && tv.IsType() {
+				return true
+			}
+			if fid, isId := ast.Unparen(x.Fun).(*ast.Ident); isId {
+				if _, isB := cinfo.Uses[fid].(*types.Builtin); isB {
+					if fid.Name == "copy" || fid.Name == "append" || fid.Name == "clear" {
+						okBody = false
+					}
+					return true
+				}
+			}
+			f2, _ := typeutil.Callee(cinfo, x).(*types.Func)
+			if f2 == nil || f2.Pkg() == nil || f2.Pkg().Path() == mod || strings.HasPrefix(f2.Pkg().Path(), mod+"/") || !fusePure[f2.FullName()] {
+				okBody = false
+			}
+		}
+		return okBody
+	})
+	return okBody
 }
 
 // stableArg: the argument (an element or field read with call-free operands) denotes the same thing wherever the helper
